@@ -593,6 +593,15 @@ def r1_9(ctx, rc):
     apply_rules(ctx, rc)
 
 
+def r1_10(ctx, rc):
+    """The replay overlay mirrors execution (R5.8), and what is recorded is
+    not aliased with objects the user can still modify (R11.1)."""
+    from .c05 import r5_8
+    from .c11 import r11_1
+    r5_8(ctx, rc)
+    r11_1(ctx, rc)
+
+
 RULES = [
     ('R1.1', 'registry agreement: API, recorder, replayer', r1_1),
     ('R1.2', 'every observation is recorded, on every exit', r1_2),
@@ -603,4 +612,5 @@ RULES = [
     ('R1.7', 'what was recorded is what is read back', r1_7),
     ('R1.8', 'error classes of queries come from the virtual view', r1_8),
     ('R1.9', 'a reused subtree is applied completely', r1_9),
+    ('R1.10', 'overlay bookkeeping inverts; records are not aliased', r1_10),
 ]
